@@ -234,7 +234,8 @@ def rand_offset(rng):
 
 def gen_pcase(rng) -> dict:
     kind = rng.choice(["add", "radd", "subint", "sub", "sub", "cmp", "cmp", "cmp", "hasheq", "yearseg", "year", "segment",
-                       "toymd", "toymd", "toord", "shift", "shift", "shift", "fromymd", "fromys", "pfu", "pow", "mk"])
+                       "toymd", "toymd", "toord", "shift", "shift", "shift", "fromymd", "fromys", "pfu", "pow", "mk",
+                       "fromdate", "fromdate", "fromdate", "refreq", "refreq"])
     s = rand_spec(rng)
     c = {"kind": kind, "s": s}
     f = spec_freq(s)
@@ -272,6 +273,19 @@ def gen_pcase(rng) -> dict:
         if rng.random() < 0.05:
             d = dim + 1
         c.update(f=ff, y=y, m=m, d=d)
+    elif kind == "fromdate":
+        # a period of every calendar frequency built from a calendar date, through one of the public entry points
+        ff = rng.choice([1, 2, 4, 12, 365])
+        y = rand_year(rng)
+        m = rng.randint(1, 12)
+        dim = calendar.monthrange(y, m)[1]
+        d = rng.choice([1, dim, rng.randint(1, dim)])
+        c.update(f=ff, y=y, m=m, d=d, via=rng.choice(["pydate", "iso", "ymd", "pydates", "isos", "dater"]))
+    elif kind == "refreq":
+        c["s"] = rand_spec(rng, freq=rng.choice([1, 2, 4, 12, 365, 365, 12]), sloppy=0)
+        c["f"] = rng.choice([1, 2, 4, 12, 365])
+        c["pos"] = rng.randrange(3)
+        c["via"] = rng.choice(["method", "function", "convert"])
     elif kind == "fromys":
         pass
     elif kind == "pfu":
@@ -289,6 +303,26 @@ def gen_pcase(rng) -> dict:
     return c
 
 
+def period_from_date(ir, via: str, f: int, y: int, m: int, d: int):
+    """the period of frequency f that a calendar date belongs to, through one public entry point"""
+    F = ir.Frequency(f)
+    day = dt.date(y, m, d)
+    iso = f"{y:04d}-{m:02d}-{d:02d}"
+    if via == "pydate":
+        return ir.Period.from_python_date(day, frequency=F)
+    if via == "iso":
+        return ir.Period.from_iso_string(iso, frequency=F)
+    if via == "ymd":
+        return ir.Period.from_ymd(F, y, m, d)
+    if via == "pydates":
+        return ir.periods_from_python_dates([day], frequency=F)[0]
+    if via == "isos":
+        return ir.periods_from_iso_strings([iso], frequency=F)[0]
+    if via == "dater":
+        return ir.dates.Dater.from_iso_string(F, iso)
+    raise AssertionError(via)
+
+
 def run_pcase(c: dict):
     import irispie as ir
     kind = c["kind"]
@@ -296,6 +330,17 @@ def run_pcase(c: dict):
     def go():
         if kind == "fromymd":
             return oP(ir.Period.from_ymd(ir.Frequency(c["f"]), c["y"], c["m"], c["d"]))
+        if kind == "fromdate":
+            return oP(period_from_date(ir, c["via"], c["f"], c["y"], c["m"], c["d"]))
+        if kind == "refreq":
+            src = mk_py(c["s"])
+            F = ir.Frequency(c["f"])
+            pos = POS[c["pos"]]
+            if c["via"] == "method":
+                return oP(src.refrequent(F, position=pos))
+            if c["via"] == "convert":
+                return oP(src.convert(F, position=pos))
+            return oP(ir.refrequent(src, F, position=pos))
         p = mk_py(c["s"])
         if kind in ("mk", "fromys"):
             return oP(p)
@@ -368,8 +413,10 @@ def coq_pcase(c: dict) -> str:
     if kind == "shift":
         by = f'(ByKw "{c["by"]}")' if isinstance(c["by"], str) else f"(ByInt {coq_z(c['by'])})"
         return f"c_shift {s} {by}"
-    if kind == "fromymd":
+    if kind in ("fromymd", "fromdate"):
         return f"c_fromymd {c['f']} {coq_z(c['y'])} {coq_z(c['m'])} {coq_z(c['d'])}"
+    if kind == "refreq":
+        return f"c_refreq {c['f']} {c['pos']} {s}"
     if kind == "pfu":
         if c["o"] is not None:
             return f"c_pfu {s} {coq_spec(c['o'])} {coq_z(c['step'])}"
@@ -632,7 +679,8 @@ def block_digest(f: int, first: int, count: int) -> int:
         first_p = ir.Period.from_python_date(dt.date.fromordinal(first))
     else:
         first_p = ir.Period.from_year_segment(ir.Frequency(f), first // f, first % f + 1)
-    assert first_p.serial == first
+    if first_p.serial != first:
+        return -1          # the constructor itself is off: reported as a digest mismatch of this block
     h = 0
     for k in range(count):
         h = period_digest(h, first_p + k)
@@ -709,6 +757,8 @@ Set Printing Width 1000000.
 Set Printing Depth 1000000.
 Definition c_pfu_delta (a : pspec) (delta step : Z) : obs :=
   obs_of (fun l => OL (map OP l)) (bind (mk a) (fun p => periods_from_until p (padd p delta) step)).
+Definition c_refreq (f pos : Z) (s : pspec) : obs :=
+  obs_of OP (bind (mk s) (fun p => bind (to_ymd (pos_of pos) p) (fun '(y, m, d) => from_ymd f y m d))).
 """
 
 
@@ -963,6 +1013,45 @@ def falsify(ctx, hints):
                            "s = p.shift('soy'); assert s.to_python_date() == dt.date(a.year, 1, 1) and s == p.shift('boy')\n"
                            "e = p.shift('eopy'); assert e.to_python_date() == dt.date(a.year - 1, 12, 31) and e + 1 == s\n"
                            "t = p.shift('tty'); assert (t is None and p == s) or (p > s and t == p - 1)")
+    # 5b. periods built from calendar dates, every calendar frequency, every public entry point: the period contains
+    #     the date, its year/segment agree with the calendar, and all entry points agree with one another.
+    #     Every month is visited in every run (first, last and a random day), in a common, a leap and a random year.
+    years = [rng.choice([1999, 2001, 2023, 2100]), rng.choice([2000, 2024, 1600]), rng.randint(2, 9998)]
+    if ctx.thorough:
+        years += [rng.randint(2, 9998) for _ in range(25)]
+    for y in years:
+        for m in range(1, 13):
+            dim = calendar.monthrange(y, m)[1]
+            for d in sorted({1, dim, rng.randint(1, dim)}):
+                for f in (1, 2, 4, 12, 365):
+                    seg = f"(a.month - 1) // {12 // f} + 1" if f in REG else "a.timetuple().tm_yday"
+                    ck.check(f"fromdate:{f}", "a period built from a calendar date does not contain that date / its year or "
+                             "segment disagree with the calendar / the date-based constructors disagree",
+                             {"date": [y, m, d], "frequency": f},
+                             f"a = dt.date({y}, {m}, {d}); F = ir.Frequency({f}); iso = a.isoformat()\n"
+                             "ps = {'from_python_date': ir.Period.from_python_date(a, frequency=F),\n"
+                             "      'from_iso_string': ir.Period.from_iso_string(iso, frequency=F),\n"
+                             "      'from_ymd': ir.Period.from_ymd(F, a.year, a.month, a.day),\n"
+                             "      'periods_from_python_dates': ir.periods_from_python_dates([a], frequency=F)[0],\n"
+                             "      'periods_from_iso_strings': ir.periods_from_iso_strings([iso], frequency=F)[0],\n"
+                             "      'daily.refrequent': ir.dd(a.year, a.month, a.day).refrequent(F),\n"
+                             "      'daily.convert(end)': ir.dd(a.year, a.month, a.day).convert(F, position='end'),\n"
+                             "      'refrequent(daily)': ir.refrequent(ir.dd(a.year, a.month, a.day), F)}\n"
+                             + ("" if f == 365 else
+                                "for pos in ('start', 'middle', 'end'):\n"
+                                "    ps['monthly.refrequent ' + pos] = ir.mm(a.year, a.month).refrequent(F, position=pos)\n"
+                                if f != 12 else "ps['monthly'] = ir.mm(a.year, a.month)\n") +
+                             "for how, p in ps.items():\n"
+                             "    lo = p.to_python_date(position='start'); hi = p.to_python_date(position='end')\n"
+                             "    assert p.frequency == F and lo <= a <= hi, (how, str(p), str(lo), str(hi))\n"
+                             f"    assert p.year == a.year and p.segment == {seg}, (how, str(p), p.year, p.segment)\n"
+                             f"    assert p.to_year_segment() == (a.year, {seg}) and p == ps['from_ymd'], (how, str(p))\n"
+                             "    one = dt.timedelta(days=1)\n"
+                             "    assert (p - 1).to_python_date(position='end') + one == lo and hi + one == (p + 1).to_python_date(position='start'), how")
+    for f in (1, 2, 4, 12, 365):
+        ck.check(f"fromdate:today:{f}", "Period.today does not contain today's date", {"frequency": f},
+                 f"F = ir.Frequency({f}); a = dt.date.today(); p = ir.Period.today(F)\n"
+                 "assert p.to_python_date(position='start') <= a <= p.to_python_date(position='end') and p.year == a.year")
     # 6. spans
     for it in range(ctx.scale(600, 4000)):
         f = rng.choice(FREQS)
@@ -1045,6 +1134,22 @@ def falsify(ctx, hints):
                 prev_end = c_
                 p = p + 1
             ck.count[f"sweep:{f}"] = (9997 * f)
+    if ctx.thorough:
+        # every day of 60 years through from_python_date into every regular frequency
+        for y in sorted({1, 2, 1900, 2000, 2024, 9998, 9999} | {rng.randint(1, 9999) for _ in range(53)}):
+            a = dt.date(y, 1, 1)
+            while a.year == y:
+                for f in REG:
+                    p = ir.Period.from_python_date(a, frequency=ir.Frequency(f))
+                    if not (p.to_python_date(position="start") <= a <= p.to_python_date(position="end")
+                            and p.year == y and p.segment == (a.month - 1) // SEGM[f] + 1):
+                        ck.note(f"fromdate:{f}", "exhaustive sweep: a period built from a date does not contain it",
+                                {"date": a.isoformat(), "frequency": f}, [str(p), p.year, p.segment], None,
+                                f"p = ir.Period.from_python_date(dt.date({a.year}, {a.month}, {a.day}), frequency=ir.Frequency({f}))\n"
+                                f"assert p.to_python_date(position='start') <= dt.date({a.year}, {a.month}, {a.day}) "
+                                "<= p.to_python_date(position='end')")
+                a += dt.timedelta(days=1)
+        ck.count["sweep:fromdate"] = 60 * 365 * 4
     seen = {}
     for f_ in ck.fails:
         seen.setdefault(f_.key, f_)
